@@ -4,7 +4,7 @@ From Coq Require Import List NArith ZArith String Bool.
 From GQL Require Import Exec.Syntax Validate.VSyntax Validate.Overlap Validate.OverlapSpec Validate.Rules
      Exec.Exec Proofs.ValidateOverlap Proofs.ValidateRules Proofs.ValidateMerge Proofs.ValidateMemo Proofs.ValidateInputFields Proofs.ValidateArgs Proofs.ValidateCycles Proofs.ValidateUnused Proofs.ValidateMemoHard Proofs.ValidateL1 Validate.All Proofs.ValidateAll Proofs.ValidateCyclesComplete
      Validate.OverlapWf Proofs.ValidateReflect Proofs.ValidateReflectClose Proofs.ValidateFuel Proofs.ValidateDecide
-     Proofs.ValidateWf Proofs.ValidateRank Proofs.ValidateWfDoc Proofs.ValidateClosure Proofs.ValidateRulesDecl Proofs.ValidateLiteral Proofs.ValidateWitness Proofs.ValidateOffending Proofs.ValidateFuelMono Proofs.ValidateTermination Proofs.ValidateLocated.
+     Proofs.ValidateWf Proofs.ValidateRank Proofs.ValidateWfDoc Proofs.ValidateClosure Proofs.ValidateRulesDecl Proofs.ValidateLiteral Proofs.ValidateWitness Proofs.ValidateOffending Proofs.ValidateFuelMono Proofs.ValidateTermination Proofs.ValidateLocated Proofs.ValidateLocated2.
 Import ListNotations.
 Open Scope string_scope.
 
@@ -597,6 +597,20 @@ Proof.
   intros; eapply known_type_names_located; eassumption.
 Qed.
 Print Assumptions C02_rule_located_known_type_names.
+
+(* a fragment spread inside some fragment definition (the spread that closes / starts the cycle) *)
+Theorem C02_rule_located_no_fragment_cycles : forall W x, In x (rule_no_fragment_cycles W) ->
+  exists f, In f (w_frags W) /\ In x (map fst (ctx_spreads (wf_sel f))).
+Proof. exact no_fragment_cycles_located. Qed.
+Print Assumptions C02_rule_located_no_fragment_cycles.
+
+(* the name node of a field of an object literal that occurs in a default value or an argument value *)
+Theorem C02_rule_located_unique_input_field_names : forall S W x, In x (rule_unique_input_field_names S W) ->
+  exists v o p, sub_obj v o /\ In p o /\ x = fst p /\
+    ((exists op vd, In op (w_ops W) /\ In vd (wo_vars op) /\ wv_default vd = Some v) \/
+     (exists ow ad a, In (IArg ow ad a) (doc_items S W) /\ wa_val a = v)).
+Proof. exact unique_input_field_names_located. Qed.
+Print Assumptions C02_rule_located_unique_input_field_names.
 
 (* ---- termination of the validator's model as a whole ----
    Only the overlap rule's model takes fuel.  The other recursive models are structural
